@@ -132,6 +132,40 @@ type cacheAnchors struct {
 	entryCall *ssa.Call
 }
 
+// cacheStmt: a statement on the retained map as seen from a role function: the statement itself
+// (in `at`, the function holding it — the role function, or a method of the struct the containers
+// were regrouped into) and `site`, the instruction of the role function it happens at (the statement,
+// or the call that leads to it).
+type cacheStmt struct {
+	mu   *ssa.MapUpdate
+	del  *ssa.Call
+	at   *ssa.Function
+	site ssa.Instruction
+}
+
+func viaGroupOnly(g *ssa.Function) bool { return an.RecvOwnerHook(g) != "recv" }
+
+func cacheStmts(fn *ssa.Function, deletes bool) []cacheStmt {
+	var out []cacheStmt
+	an.Region(fn, viaGroupOnly, func(o an.Occ) {
+		site := o.In
+		if len(o.Chain) > 0 {
+			site = o.Chain[0]
+		}
+		switch x := o.In.(type) {
+		case *ssa.MapUpdate:
+			if !deletes && o.Path(x.Map) == "recv.evs" {
+				out = append(out, cacheStmt{mu: x, at: x.Parent(), site: site})
+			}
+		case *ssa.Call:
+			if b, ok := x.Call.Value.(*ssa.Builtin); deletes && ok && b.Name() == "delete" && len(x.Call.Args) == 2 && o.Path(x.Call.Args[0]) == "recv.evs" {
+				out = append(out, cacheStmt{del: x, at: x.Parent(), site: site})
+			}
+		}
+	})
+	return out
+}
+
 func mapUpdatesOn(fn *ssa.Function, suffix string) []*ssa.MapUpdate {
 	var out []*ssa.MapUpdate
 	an.Instrs(fn, func(in ssa.Instruction) {
@@ -180,6 +214,22 @@ func resolveCache(c *core.Ctx) *cacheAnchors {
 		}
 		if len(mapDeletesOn(fn, "recv.evs")) > 0 {
 			a.del = fn
+		}
+	}
+	if a.ins == nil || a.del == nil {
+		// the three containers regrouped into a small struct of their own (`store eventCacheStore` with
+		// put / remove): the role functions are the cache's methods that update them through that
+		// struct's methods, which are read as part of their callers
+		for _, fn := range P.ModFuncs {
+			if recvTypeName(fn) != "EventCache" || fn.Parent() != nil {
+				continue
+			}
+			if a.ins == nil && len(cacheStmts(fn, false)) > 0 {
+				a.ins = fn
+			}
+			if a.del == nil && len(cacheStmts(fn, true)) > 0 {
+				a.del = fn
+			}
 		}
 	}
 	if a.ins == nil || a.del == nil {
@@ -259,9 +309,9 @@ func (a *cacheAnchors) delKeyParam() int {
 			return 0
 		}
 	}
-	for _, d := range mapDeletesOn(a.del, "recv.evs") {
+	for _, d := range cacheStmts(a.del, true) {
 		for i := 1; i <= 2; i++ {
-			if an.PathOf(d.Call.Args[1]) == "p:"+a.del.Params[i].Name() {
+			if an.PathOf(d.del.Call.Args[1]) == "p:"+a.del.Params[i].Name() {
 				return i
 			}
 		}
@@ -540,8 +590,8 @@ func runNewestWins(c *core.Ctx) {
 	}
 	ins := a.ins
 	c.CountFuncs(1)
-	mus := mapUpdatesOn(ins, "recv.evs")
-	mu := mus[0]
+	mus := cacheStmts(ins, false)
+	mu, muSite := mus[0].mu, mus[0].site
 	keyPath := an.PathOf(mu.Key)
 	evPath := an.PathOf(mu.Value)
 	oldPath := "recv.evs[" + keyPath + "]"
@@ -570,7 +620,7 @@ func runNewestWins(c *core.Ctx) {
 		"refused when new.CreatedAt ∈ "+f.Format("old")+": a strictly newer version does not always displace the retained one")
 	// displaced version removed before the store: every kept path to the map
 	// update passes a call of the removal helper with the same key
-	paths, _ := an.PathsTo(ins, mu.Block(), 4096)
+	paths, _ := an.PathsTo(ins, muSite.Block(), 4096)
 	delOccs := occCallsTo(ins, a.del, a.stop)
 	okRem := true
 	cnt := 0
